@@ -1,16 +1,124 @@
-"""setup_cmd: offline self-check of the framework (imports, reference models, generators). Exit 0 when usable."""
+"""setup_cmd: offline self-check of the framework itself (never of /repo's behaviour).  Exit 0 when usable.
+
+ * the tree under test imports from the expected place;
+ * the reference models agree with independent authorities on spot checks that do not involve soupsieve:
+   calendar vs datetime/calendar (years 1..9999), RFC 4647 section 3.3.2 examples, CSS Syntax identifier examples,
+   An+B arithmetic vs brute force, the reference matcher on hand-evaluated Selectors-spec examples;
+ * generators are not vacuous (floors on space sizes);
+ * MANIFEST.json and any evidence files present validate against the schemas (when the tooling venv's jsonschema is available).
+"""
 from __future__ import annotations
+import json
+import os
+import subprocess
 import sys
+
+
+def check_calendar():
+    import calendar
+    import datetime
+    from .ref import calendar as C
+    for y in range(1, 10000):
+        assert C.weeks_in_year(y) == datetime.date(y, 12, 28).isocalendar()[1], y
+        assert C.leap(y) == calendar.isleap(y), y
+        assert C.weekday_jan1(y) == datetime.date(y, 1, 1).weekday(), y
+        assert C.dec31_in_week1(y) == (datetime.date(y, 12, 31).isocalendar()[1] == 1), y
+    for y in (1, 1900, 2000, 2019, 2020, 9999):
+        for m in range(1, 13):
+            assert C.days_in_month(y, m) == calendar.monthrange(y, m)[1]
+    assert C.parse('date', '2020-02-29') == (2020, 2, 29) and C.parse('date', '2019-02-29') is None
+    assert C.parse('week', '2020-W53') == (2020, 53) and C.parse('week', '2019-W53') is None
+    assert C.parse('time', '24:00') is None and C.parse('number', '.5') == (0.5,) and C.parse('number', '1.') is None
+    assert C.parse('date', '2020-01-01\n') is None and C.parse('month', '0999-01') == (999, 1) and C.parse('month', '999-01') is None
+    assert C.out_of_range('time', (22, 0), (2, 0), (12, 0)) and not C.out_of_range('time', (22, 0), (2, 0), (23, 0))
+    assert C.out_of_range('date', (2021, 1, 1), (2020, 1, 1), (2020, 6, 1))
+
+
+def check_lang():
+    from .ref.lang import extended_filter as f
+    # RFC 4647, section 3.3.2, example for the range "de-*-DE" (also written "de-DE")
+    for r in ('de-*-DE', 'de-DE'):
+        for t in ('de-DE', 'de-de', 'de-Latn-DE', 'de-Latf-DE', 'de-DE-x-goethe', 'de-Latn-DE-1996', 'de-Deva-DE'):
+            assert f(r, t), (r, t)
+        for t in ('de', 'de-x-DE', 'de-Deva'):
+            assert not f(r, t), (r, t)
+    assert f('*', 'en') and not f('*', '') and f('', '') and not f('', 'en') and f('de-*', 'de') and f('*-*', 'x') and f('en', 'en-x')
+
+
+def check_ident():
+    from .ref import ident
+    s = ident.serialize_ident('\x01-9 a\x7f')
+    assert ident.consume_ident(s) == ('\x01-9 a\x7f', len(s))
+    assert ident.consume_ident('\\31 23') == ('123', 6)
+    assert ident.consume_ident('1a') is None and ident.consume_ident('-') is None and ident.consume_ident('--') == ('--', 2)
+    assert ident.serialize_ident('-') == '\\-' and ident.serialize_ident('0a') == '\\30 a' and ident.serialize_ident('a b') == 'a\\ b'
+    assert ident.consume_ident('\\110000') == ('�', 7) and ident.consume_ident('\\0') == ('�', 2)
+
+
+def check_matcher():
+    from .gen import trees as T, selectors as S
+    from .ref import css as R
+    for a in range(-6, 7):
+        for b in range(-9, 10):
+            for pos in range(1, 12):
+                assert R.solve_nth(a, b, pos) == any(a * n + b == pos for n in range(0, 40)), (a, b, pos)
+    kid = lambda n, a=(), k=(): ('e', n, tuple(a), tuple(k))
+    # Selectors 4 examples, evaluated by hand
+    soup = T.build_api((kid('html', (), (kid('body', (), (kid('div', (('class', ('a', 'b')), ('id', 'x')), (kid('p', (('lang', 'en-US'),), (('t', 'hi'),)), ('c', 'c'), kid('p'), kid('span', (('t', 'v-w'),)))),
+                                                        kid('div', (), (('t', ' \n'),)))),)),))
+    ids = lambda lst: [e.name for e in R.select(soup, lst)[0]]
+    assert ids((S.cx(S.cp(S.T('p')), '+', S.cp(S.T('p'))),)) == ['p']                       # comment between siblings is ignored
+    assert ids((S.cx(S.cp(None, ('pc', 'empty'))),)) == ['p', 'span', 'div']                 # whitespace-only div is empty
+    assert ids((S.cx(S.cp(None, ('pc', 'root'))),)) == ['html']
+    assert ids((S.cx(S.cp(S.T('div'), ('has', (('>', S.cx(S.cp(S.T('span')))),)))),)) == ['div']
+    assert ids((S.cx(S.cp(None, ('attr', None, 't', '|=', 'v', None))),)) == ['span']
+    assert ids((S.cx(S.cp(None, ('fn', 'not', (S.cx(S.cp(S.T('div'))), S.cx(S.cp(S.T('p'))))))),)) == ['html', 'body', 'span']
+    assert ids((S.cx(S.cp(None, ('nth', 'last-of-type', 0, 1, None, None))),)) == ['html', 'body', 'p', 'span', 'div']
+    assert ids((S.cx(S.cp(None, ('lang', ('en',)))),)) == ['p']
+    assert ids((S.cx(S.cp(S.T('*')), '>', S.cp(S.T('html'))),)) == []                        # the document is not an element
+    assert ids((S.cx(S.cp(None, ('attr', None, 't', '^=', '', None))),)) == []
+    assert len(T.forests(3)) == 5 and len(T.forests(4)) == 14 and len(T.forests(5)) == 42
+
+
+def check_floors():
+    from .props import c01, c02, c06, c09, c05
+    assert len(c01.structure_selectors("quick")) > 2500 and len(c01.functional_selectors('quick')) > 5000 and len(c01.attr_selectors('quick')) > 300
+    assert len(c02.ab_box('quick')) == 63 and len(c02.spellings(2, 1)) >= 20
+    assert len(c06.SIGMA) >= 70 and len(c09.bases('quick')) >= 100 and len(c05.POOL) >= 110
+
+
+def check_schemas():
+    vt = '/opt/veriftools/pyvenv/bin/python'
+    if not os.path.exists(vt):
+        return 'tooling venv absent: schema validation skipped'
+    here = os.path.dirname(os.path.dirname(os.path.abspath(__file__)))
+    code = (
+        "import json,sys,glob,jsonschema\n"
+        "m=json.load(open(sys.argv[1]+'/MANIFEST.json'));jsonschema.validate(m,json.load(open('/root/.vp/MANIFEST.schema.json')))\n"
+        "s=json.load(open('/root/.vp/EVIDENCE.schema.json'))\n"
+        "n=0\n"
+        "for f in glob.glob(sys.argv[1]+'/evidence/*.json'):\n"
+        "    jsonschema.validate(json.load(open(f)),s);n+=1\n"
+        "print('manifest ok, %d evidence files ok'%n)\n")
+    if not os.path.exists('/root/.vp/MANIFEST.schema.json'):
+        return 'schemas absent: validation skipped'
+    p = subprocess.run([vt, '-c', code, here], capture_output=True, text=True)
+    if p.returncode != 0:
+        raise AssertionError('schema validation failed: ' + p.stderr[-500:])
+    return p.stdout.strip()
 
 
 def main():
     from . import common
-    common.bind()
-    from .ref import ident
-    assert ident.consume_ident(ident.serialize_ident('\x01-9 a\x7f')) == ('\x01-9 a\x7f', len(ident.serialize_ident('\x01-9 a\x7f')))
-    assert ident.consume_ident('\\31 23') == ('123', 6)
-    assert ident.consume_ident('1a') is None and ident.consume_ident('-') is None and ident.consume_ident('--') == ('--', 2)
-    print('vf.selftest ok')
+    sv = common.bind()
+    assert os.path.abspath(sv.__file__).startswith(common.REPO)
+    check_calendar()
+    check_lang()
+    check_ident()
+    check_matcher()
+    check_floors()
+    msg = check_schemas()
+    print('vf.selftest ok;', msg)
     return 0
 
 
